@@ -107,6 +107,12 @@ fn main() {
             std::process::exit(engine::supervisor::replay_file(&prop, &file, &verif_dir()));
         }
         "worker" => worker(&args, &prop, tier, seed),
+        "fmtdump" => {
+            engine::install_panic_hook();
+            let seed: u64 = args.get(3).and_then(|s| s.parse().ok()).unwrap_or(1);
+            let n: u32 = args.get(4).and_then(|s| s.parse().ok()).unwrap_or(1000);
+            std::thread::Builder::new().stack_size(1 << 30).spawn(move || props::fmt::dump(seed, n)).unwrap().join().unwrap();
+        }
         "eval" => {
             engine::install_panic_hook();
             props::c02::eval_main();
